@@ -193,7 +193,8 @@ def make_regs(rng):
         for _ in range(rng.randrange(1, 5)):
             k = rng.choice(["int", "lit", "flt", "date"])
             if k == "int":
-                fd = codec.fd_int(rng.randrange(1, 10), pos)
+                # mostly narrow; one in six wide enough for values beyond 2**53 (serial numbers, nanosecond stamps)
+                fd = codec.fd_int(rng.choice([12, 17, 19]) if rng.random() < 0.17 else rng.randrange(1, 10), pos)
             elif k == "lit":
                 fd = codec.fd_lit(rng.randrange(1, 10), pos)
             elif k == "flt":
@@ -218,7 +219,7 @@ FREE_TEXT = ["# comment\n", "\n", "   \n", "free text line\n", "& 12 34\n", "#AA
 def random_case(rng, with_empty=False):
     regs = make_regs(rng)
     elems = []
-    for _ in range(rng.randrange(0, 13)):
+    for _ in range(fsup.nlines(rng, 13)):
         if rng.random() < 0.25:
             if rng.random() < 0.3:
                 # free text that carries a declared identifier outside its window (shifted / in the body)
